@@ -72,6 +72,10 @@ def fam_bounds(tier):
         ('node', True, seq('off', opt(seq('off', push(S('x')), S('y'))), opt('peek'), S('x'))),
         ('node', True, seq('off', push(S('x')), opt(seq('off', push(S('xy')), S('y'))), 'peek')),
         ('node', True, ('pair', opt(('pair', push(S('x')), S('y'))), opt('peekall'))),
+        # a failed optional / pair that pops an old entry and pushes another one (same height, different content)
+        ('node', True, seq('off', push(S('x')), opt(seq('off', 'drop', push(S('y')), S('x'))), 'peek')),
+        ('node', True, seq('off', push(S('x')), opt(('pair', 'pop', ('pair', push(S('y')), S('x')))), opt('peek'), S('y'))),
+        ('node', True, seq('off', push(S('x')), rep('off', 0, 2, seq('off', 'drop', push(S('y')), S('x'))), 'peek')),
         # unbounded repetitions of stack operations: every iteration succeeds without consuming until the stack is empty
         ('node', True, seq('off', push(S('x')), push(S('y')), rep('off', 0, None, 'drop'), 'peekall', S('x'))),
         ('node', True, seq('off', push(S('x')), push(S('')), push(S('')), rep('off', 1, None, 'pop'), opt('peek'), S('y'))),
